@@ -177,7 +177,7 @@ F = r'''
 def pool_k__K___c__C__(enforce: int, minp: int, queue: int, m1: int, m2: int, m3: int) -> bool:
     """
     pre: __EPRE__ and 1 <= minp <= __MINMAX__ and __QPRE__
-    pre: 0 <= m1 <= 7 and 0 <= m2 <= 7 and 0 <= m3 <= 7
+    pre: 0 <= m1 <= 7 and 0 <= m2 <= 7 and __M3PRE__
     post: _
     """
     return go(__K__, __C__, enforce, minp, queue, m1, m2, m3)
@@ -218,7 +218,8 @@ def _key_from_replay(args, kwargs, replay_out):
 
 
 def run(ctx: Ctx) -> None:
-    src = SRC
+    thorough = ctx.tier == "thorough"
+    src = SRC.replace("__M3PRE__", "0 <= m3 <= 7" if thorough else "m3 == 0")
     conds = []
     for k in range(3):
         for c in (1, 2, 3):
@@ -226,7 +227,7 @@ def run(ctx: Ctx) -> None:
             if k == 1:   # MultiThreadRunner: split the option space so that every condition stays confirmable
                 variants = [(f"_e{e}_q{q}", f"enforce == {e}", f"queue == {q}") for e in (0, 1) for q in (0, 2, 4)]
             for suffix, epre, qpre in variants:
-                f = F.replace("pool_k__K___c__C__", f"pool_k{k}_c{c}{suffix}").replace("__K__", str(k)).replace("__C__", str(c))
+                f = F.replace("__M3PRE__", "0 <= m3 <= 7" if thorough else "m3 == 0").replace("pool_k__K___c__C__", f"pool_k{k}_c{c}{suffix}").replace("__K__", str(k)).replace("__C__", str(c))
                 f = f.replace("__EPRE__", epre).replace("__MINMAX__", str(c) if k == 1 else "1").replace("__QPRE__", qpre)
                 src += f
                 conds.append(Cond(f"pool_k{k}_c{c}{suffix}", "confirm", 900, keyfn=_key_from_replay))
@@ -239,7 +240,7 @@ def run(ctx: Ctx) -> None:
         "ProcessRunner._on_start/runner_loop_iteration/_reclaim_available_slots/get_active_child_runner_ids",
         "BaseRunner._report_child_runner_heartbeats",
     ]
-    ctx.bounds = {"capacity": "1..3", "iterations": "3 death rounds (any subset of up to 3 tracked workers each, incl. all at once) + 2 settle iterations",
+    ctx.bounds = {"capacity": "1..3", "iterations": "2 death rounds quick / 3 thorough (any subset of up to 3 tracked workers each, incl. all at once) + 2 settle iterations",
                   "options": "MTR: enforce_max_processes on/off, min_processes 1..capacity; queue length 0..4 (MultiThreadRunner: 0, 2, 4)"}
     ctx.stubs += ["multiprocessing.Process -> FakeProcess (start/terminate/kill/join recorded; is_alive from the death plan)",
                   "Manager -> FakeManager; cpu_count -> capacity; time.sleep no-op; deterministic uuid4",
